@@ -4,13 +4,16 @@ from propslib import comp_scope
 PROP = dict(
     extract=["editor"],
     lean_targets=["Chewing.Props.C05"],
-    runs=[dict(bin="comp"), dict(bin="editor")],
+    runs=[dict(bin="comp"), dict(bin="editor"),
+          dict(bin="editor", args=["--script", "c05"], tag="editor-c05-overshoot")],
     scope=comp_scope("cedc", "ed"),
     level="proof",
     exhaustive=False,
     rule="one evaluation = one call of a method of the real CompositionEditor (`cedc` records, through the guarded "
          "forwarding probe) or one public operation of the real Editor (`ed` records: keys in all four states, API calls, "
-         "option/layout/engine changes; generated histories), recomputed by the model from the implementation's own full "
+         "option/layout/engine changes; generated histories, plus scripted histories (run editor-c05-overshoot) in which one "
+         "step overshoots auto_commit_threshold by two or more: a two-character easy-symbol expansion at a full buffer, the "
+         "limit lowered by >= 2 in mid-composition followed by editing keys), recomputed by the model from the implementation's own full "
          "pre-state and compared on the complete post-state; distinct = distinct record text",
     trusted_base=["no kernel enumeration: all theorems are structural (induction over operation lists / histories, case "
                   "analysis over the arms of the state machine, simp/omega over lists)",
